@@ -42,9 +42,13 @@ THEOREMS = [
     "NfcVerif.C18.activate_gets_current_target",
     "NfcVerif.C18.activate_never_typeerror",
     "NfcVerif.C18.history_no_stale_target",
+    "NfcVerif.C18.llc_run_loop_ends_at_first_true",
+    "NfcVerif.C18.llc_run_loop_polls",
 ]
 
 PROMPT_BOUND = 21      # events after the first true terminate() answer (theorem connect_ends_after_terminate)
+LINK_BOUND = 2         # link exchanges after terminate() turned true inside the REAL run loop: the turn in flight + DISC
+                       # (theorem llc_run_loop_ends_at_first_true: the loop itself makes none)
 
 FOUND = [  # (token, valid as a Type A answer)
     ("F.4400.-.0.0", True), ("F.4400.-.1.0", True), ("F.0400.-.1.40", True), ("F.000c.1148b2565400.0.0", True),
@@ -263,8 +267,9 @@ def oracle_ops(ck, cw, recs, w, replay):
 
 
 # ------------------------------------------------------------------------------------------ connect()
-def run_connect(nfc, cw, world, new_clf, spec, env_toks, ts):
+def run_connect(nfc, cw, world, new_clf, spec, env_toks, ts, term_at=None):
     w = cw.World([cw.parse_answer(t) for t in env_toks], ts)
+    w.term_at = term_at
     world[0] = w
     clf = new_clf()
     opts = cw.build_options(nfc, world, spec)
@@ -297,6 +302,14 @@ def in_activation(log):
         if t.startswith("cb:") or t in ("t0", "t1"):
             return False
     return False
+
+
+def second_llcp_link(log):
+    """the last callback is a true on-connect of the llcp option and an on-release of an earlier link came before it"""
+    import sims.conn_world as cw
+    cbs = [t.split(":") for t in log if t.startswith("cb:llcp:") and ":startup:" not in t]
+    return len(cbs) >= 3 and cbs[-1][2] == "connect" and cw.val_truthy(int(cbs[-1][3])) and \
+        any(c[2] == "release" for c in cbs[:-1])
 
 
 def in_presence(log):
@@ -348,6 +361,11 @@ def oracle_connect(ck, cw, spec, env_toks, ts, txt, r, w, replay):
                     "a %s raised by a command of the tag activation (log ...%s) left connect(): a failed activation is "
                     "documented as 'try again', connect() returns None/False/True/object only"
                     % (name, " ".join(w.log[-4:])), replay)
+        elif second_llcp_link(w.log):
+            ck.fail("connect-raises-from-second-llcp-link:" + name,
+                    "%s raised inside the link loop of a SECOND link of the same connect() call (on-release of the first "
+                    "link returned a false value, the LogicalLinkController that llc.terminate() shut down is activated "
+                    "again) left connect() (%s)" % (name, spec.token()), replay)
         elif in_presence(w.log):
             ck.fail("connect-raises-from-presence-check:" + name,
                     "%s raised inside the presence check of a connected tag left connect() (%s)" % (name, spec.token()), replay)
@@ -829,6 +847,24 @@ def run(ck):
                     streams.append([rng.random() < 0.3 for _ in range(rng.randrange(1, 12))])   # non-monotone predicate
             for ts in streams:
                 connect_case(spec, env, ts)
+        # the three inner loops (presence loop, link loop, card loop) with terminate() turning true at EVERY iteration
+        d8 = ["F.00.-.0.0"] * 8
+        loops = [
+            (cw.ConnSpec(rdwr={"su": 0, "tg": ["a", "b"], "di": 2, "co": 2, "re": 2, "it": 1, "bp": 1}),
+             ["0", "F.4400.-.0.0.1", "F.0578807002.-.0.0", "0"] + d8 + ["c"]),
+            (cw.ConnSpec(rdwr={"su": 0, "tg": ["a", "b"], "di": 2, "co": 4, "re": 1, "it": 1, "bp": 0}),
+             ["0", "F.000c.1148b2565400.0.0"] + d8 + ["k", "0", "0", "0", "0"]),
+            (cw.ConnSpec(card={"su": 3, "kind": "f", "di": 2, "co": 2, "re": 2}), ["0", "F.-.-.0.0"] + d8 + ["c", "T"] + d8 + ["k"]),
+            (cw.ConnSpec(card={"su": 0, "kind": "f", "di": 2, "co": 6, "re": 0}), ["0", "F.-.-.0.0"] + d8 + ["k", "0", "0"]),
+            (cw.ConnSpec(llcp={"su": 0, "co": 2, "re": 2, "role": "i"}), ["F.4400.-.0.0", "p9"]),
+            (cw.ConnSpec(llcp={"su": 0, "co": 2, "re": 1, "role": "-"}), ["0", "F.4400.-.0.0", "p6", "F.4400.-.0.0", "p6"]),
+            (cw.ConnSpec(rdwr={"su": 0, "tg": ["a", "b"], "di": 2, "co": 2, "re": 0, "it": 1, "bp": 1},
+                         llcp={"su": 0, "co": 2, "re": 0, "role": "t"}, card={"su": 0, "kind": "f", "di": 2, "co": 2, "re": 0}),
+             ["0", "F.4400.-.0.0.1", "F.05.-.0.0", "0"] + d8[:3] + ["c", "0", "F.4400.-.0.0", "p4", "0", "F.-.-.0.0"] + d8[:3] + ["k"]),
+        ]
+        for spec, env in loops:
+            for k in range(0, 24):
+                connect_case(spec, env, [False] * k)
         ck.count("connect runs", counters["connect"])
 
         # ------------------------------------------------------------ the activation step inside connect(rdwr=...): the REAL
@@ -958,6 +994,66 @@ def run(ck):
                     if any(not (pos + 1 < len(w.log) and w.log[pos + 1].startswith("cb:llcp:connect")) for pos in succ):
                         ck.fail("activation-without-on-connect", "a successful link activation was not reported to on-connect", replay)
                 oracle_connect(ck, cw, spec, script, ts, txt, r, w, replay)
+        # ---- busy traffic: terminate() is a function of TIME (true from the K-th link exchange on), the peer keeps the
+        # local link layer busy: always something to send (c), always something received (u), both, idle, mixed; the
+        # real run_as_initiator / run_as_target must notice terminate() at the head of the next turn
+        patterns = ["ssssssssss", "cccccccccccc", "uuuuuuuuuuuu", "cucucucucucu", "sscccccccccc", "ccccssssuuuu",
+                    "ccccd", "uuud", "c", "u", ""]
+        for _ in range(40 if ck.thorough else 6):
+            patterns.append("".join(rng.choice("scucu") for _ in range(rng.randrange(1, 16))) + rng.choice(["", "", "d"]))
+        n_busy = 0
+        for pi, pat in enumerate(patterns):
+            for role in ("i", "t", "-"):
+                co, re_ = [(2, 2), (2, 1), (4, 6), (2, 0)][(pi + len(role) + ord(role[0])) % 4]
+                spec = cw.ConnSpec(llcp={"su": 0, "co": co, "re": re_, "role": role})
+                pre = ["0"] if (pi % 3 == 1) else []
+                script = pre + ["A." + pat, "0", "A." + pat[::-1]]
+                env_model = []
+                for tok in script:
+                    if tok.startswith("A."):
+                        body = tok[2:].split("d")[0]
+                        env_model += ["F.4400.-.0.0", "r" + "".join("1" if ch == "c" else "0" for ch in body)]
+                    else:
+                        env_model.append(tok)
+                ks = list(range(0, len(pat) + 4))
+                if not ck.thorough and len(ks) > 8:
+                    ks = sorted(set(ks[:4] + ks[-2:] + rng.sample(ks, 3)))
+                for k in ks:
+                    replay = {"scenario": "real LogicalLinkController run loop on a scripted NFC-DEP MAC, busy peer", "role": role,
+                              "on-connect": co, "on-release": re_, "activation script": script,
+                              "peer pattern letters": "s SYMM, c CONNECT by name (unknown service), u UI (unbound), d DISC",
+                              "terminate() true from link exchange": k}
+                    try:
+                        line, txt, r, w = run_connect(nfc, cw, world, new_clf, spec, script, [], term_at=k)
+                    except Exception as e:  # noqa
+                        unexpected(ck, "real-llc-busy", e, replay)
+                        continue
+                    n_busy += 1
+                    replay.update({"impl": line, "link exchanges": len(w.link), "sent": w.link[:20]})
+                    ts_real = [t == "t1" for t in w.log if t in ("t0", "t1")]
+                    req = "connect %s %s %s" % (spec.token(), "".join("1" if b else "0" for b in ts_real) or "-", ",".join(env_model))
+                    if txt.startswith("exc ") and second_llcp_link(w.log):
+                        # open finding connect-raises-from-second-llcp-link (reported by the oracle below): the model has no
+                        # shut-down controller state, the run is not compared
+                        ck.count("real-llc busy-traffic runs ended by the second-link defect (not compared)")
+                    else:
+                        reqs.append((req, line, "real-llc"))
+                    ck.case(("real-llc-busy", role, co, re_, pat, k), any(ok for _, ok in w.activations),
+                            "real-llc-busy:" + (txt if not txt.startswith("ok val") else "ok release-value"),
+                            sample=replay if n_busy == 7 else None)
+                    try:
+                        if isinstance(r, cw.Runaway) or len(w.link) > k + LINK_BOUND:
+                            ck.fail("llc-run-not-prompt-after-terminate",
+                                    "terminate() is true from link exchange %d on, but the link loop went on for %d exchanges "
+                                    "(role %s, peer pattern %r; terminate() was asked %d times, %s): connect() did not end "
+                                    "promptly once terminate() is true"
+                                    % (k, len(w.link), role, pat, len(ts_real),
+                                       "never answered true" if True not in ts_real else "first true at poll %d" % (ts_real.index(True) + 1)),
+                                    replay)
+                        oracle_connect(ck, cw, spec, script, ts_real, txt, r, w, replay)
+                    except Exception as e:  # noqa
+                        unexpected(ck, "real-llc-busy-oracle", e, replay)
+        ck.count("real-llc busy-traffic runs", n_busy)
     ck.count("real-llc runs", n_real)
 
     # ---------------------------------------------------------------- constants of the model: the GET_VERSION table
